@@ -564,8 +564,11 @@ func (api *API) ExportCSV(ctx context.Context, indexName string, fieldName strin
 		return errors.Wrap(err, "writing CSV")
 	}
 
-	// Ensure data is flushed.
+	// Ensure data is flushed, and that it actually reached the writer.
 	cw.Flush()
+	if err := cw.Error(); err != nil {
+		return errors.Wrap(err, "flushing CSV")
+	}
 
 	span.LogKV("n", n)
 
